@@ -197,12 +197,14 @@ def literal_fits(lit, classes):
 
 
 # ---------------------------------------------------------------------------------------------- interpreter configurations
-CONFIGURATIONS = [("python -O", ["-O"], {}), ("python -OO", ["-OO"], {}), ("PYTHONHASHSEED=4711", [], {"PYTHONHASHSEED": "4711"})]
+CONFIGURATIONS = [("python -O", ["-O"], {}), ("python -OO", ["-OO"], {}), ("PYTHONHASHSEED=4711", [], {"PYTHONHASHSEED": "4711"}),
+                  # the C locale without UTF-8 mode: the default text encoding is ASCII (the bundled data are UTF-8 files)
+                  ("LC_ALL=C", [], {"LC_ALL": "C", "LANG": "C", "PYTHONUTF8": "0", "PYTHONCOERCECLOCALE": "0"})]
 
 
 def across_configurations(rec, descs, relation="same_in_every_interpreter_configuration"):
     """The outcome of a call is the same in an interpreter started with -O (assert statements removed), -OO (docstrings removed
-    too) or another hash seed as in this process (differential between configurations of the same tree). descs: vlib.calls
+    too), another hash seed or the plain C locale as in this process (differential between configurations of the same tree). descs: vlib.calls
     descriptors."""
     import json
     import subprocess
